@@ -357,27 +357,33 @@ Fixpoint zdedup (l : list Z) : list Z :=
 Definition zdistinct (l : list Z) : nat :=
   List.length (zdedup (zmsort_fuel 64 (map (fun x => [x]) l))).
 
-(* the property instance for one estimate: elements (ids), their ranks, requested k, estimate.
-   d < max k 4: exact.  Otherwise the estimate is (k'-1)/(k'-th smallest distinct rank) -- which
-   depends on the SET of elements only, hence not on duplicates, order or partitioning -- and,
-   for k' >= 64 (sampled statistical claim), within 6/sqrt(k'-2) relative error of d. *)
-Definition kmv_prop (k : nat) (elems : list Z) (ranks : list float) (est : float) : bool :=
-  let k' := Nat.max k 4 in
-  let d := zdistinct elems in
-  let sr := fdedup (fmsort ranks) in
-  Nat.eqb (List.length sr) d && Nat.eqb (List.length elems) (List.length ranks)
-  && (if (d <? k')%nat then feq est (fofnat d)
-      else match nth_error sr (k' - 1) with
-           | Some r =>
-               fsame est (PrimFloat.div (PrimFloat.sub (fofnat k') 1%float) r)
-               && (if (64 <=? k')%nat then
-                     let df := fofnat d in
-                     fle (PrimFloat.abs (PrimFloat.sub est df))
-                         (PrimFloat.mul df (PrimFloat.div 6%float
-                            (PrimFloat.sqrt (PrimFloat.sub (fofnat k') 2%float))))
-                   else true)
-           | None => false
-           end).
+(* ---- the PROPERTY side for KMV names no hash function ----
+   It judges the observed estimate against what the property promises, with the number of
+   distinct values d taken from the integer ids only:
+     d < k' = max k 4 : the estimate is exactly d;
+     d >= k', k' >= 64: within the stated error band, relative error <= 6/sqrt(k'-2) (a sampled
+                        statistical claim: 6 standard deviations of the KMV estimator);
+     d >= k', k' < 64 : a positive number (no band is stated for sketches this small);
+   and independence of duplicates, order and partitioning: the estimate equals `plain`, what the
+   same (real) combiner returns for the SET of elements -- each distinct element once, ascending,
+   one accumulator, add_input only. The concrete SipHash ranks (Combiners/KMVRank.v, and the ranks
+   the harness computes with std's DefaultHasher) are used on the AGREEMENT side only. *)
+Definition band_ok (k' d : nat) (est : float) : bool :=
+  if (d <? k')%nat then feq est (fofnat d)
+  else if (64 <=? k')%nat then
+    let df := fofnat d in
+    fle (PrimFloat.abs (PrimFloat.sub est df))
+        (PrimFloat.mul df (PrimFloat.div 6%float (PrimFloat.sqrt (PrimFloat.sub (fofnat k') 2%float))))
+  else negb (fnan est) && flt 0%float est.
+
+Definition kmv_prop (k : nat) (elems : list Z) (est plain : float) : bool :=
+  band_ok (Nat.max k 4) (zdistinct elems) est && fsame est plain.
+
+(* agreement side: the ranks the harness sent are one per element and as many distinct ranks as
+   distinct elements (no collision in the data) *)
+Definition ranks_sane (elems : list Z) (ranks : list float) : bool :=
+  Nat.eqb (List.length (fdedup (fmsort ranks))) (zdistinct elems)
+  && Nat.eqb (List.length elems) (List.length ranks).
 
 Definition dec_part (j : J) : option (bool * list Z) :=
   match j with
@@ -410,7 +416,7 @@ Definition kmv_shape (shape : Z) (accs : list (kmv float)) (k : nat) : kmv float
 
 Definition check_kmv (input output : J) : verdict :=
   match input, output with
-  | JL [JI k; JI shape; JL jparts], JL [JS okt; JL [JF est; JL jranks]] =>
+  | JL [JI k; JI shape; JL jparts], JL [JS okt; JL [JF est; JL jranks; JF plain]] =>
       match omap dec_part jparts, omap jfs jranks with
       | Some parts, Some ranks =>
           if negb (String.eqb okt "ok") then ok_verdict false false else
@@ -420,8 +426,9 @@ Definition check_kmv (input output : J) : verdict :=
           (* the ranks the harness computed with the real DefaultHasher are exactly the ranks of
              the model of rank_from_value (Combiners/KMVRank.v) *)
           let ranks_agree := all2 (fun p r => fsames (map rank_of_u64 (snd p)) r) parts ranks in
-          ok_verdict (fsame model est && ranks_agree)
-                     (kmv_prop k (List.concat (map snd parts)) (List.concat ranks) est)
+          ok_verdict (fsame model est && ranks_agree
+                      && ranks_sane (List.concat (map snd parts)) (List.concat ranks))
+                     (kmv_prop k (List.concat (map snd parts)) est plain)
       | _, _ => malformed
       end
   | _, _ => malformed
@@ -431,14 +438,14 @@ Definition check_kmv (input output : J) : verdict :=
    runner partitions and merges, so the model is simply "all ranks into one accumulator" *)
 Definition check_kmvp (input output : J) : verdict :=
   match input, output with
-  | JL [JI k; jelems; JI _], JL [JS okt; JL [JF est; JL [jranks]]] =>
+  | JL [JI k; jelems; JI _], JL [JS okt; JL [JF est; JL [jranks]; JF plain]] =>
       match jints jelems, jfs jranks with
       | Some elems, Some ranks =>
           if negb (String.eqb okt "ok") then ok_verdict false false else
           let k := Z.to_nat k in
           let model := kmv_float (kmv_finish (kmv_build kltb keqb k ranks)) in
-          ok_verdict (fsame model est && fsames (map rank_of_u64 elems) ranks)
-                     (kmv_prop k elems ranks est)
+          ok_verdict (fsame model est && fsames (map rank_of_u64 elems) ranks && ranks_sane elems ranks)
+                     (kmv_prop k elems est plain)
       | _, _ => malformed
       end
   | _, _ => malformed
@@ -448,7 +455,7 @@ Definition check_kmvp (input output : J) : verdict :=
    coqc's parser stack) *)
 Definition check_kmvs (input output : J) : verdict :=
   match input, output with
-  | JL [JI k; JL jchunks; JI _], JL [JS okt; JL [JF est; JL jranks]] =>
+  | JL [JI k; JL jchunks; JI _], JL [JS okt; JL [JF est; JL jranks; JF plain]] =>
       match omap jints jchunks, omap jfs jranks with
       | Some echunks, Some rchunks =>
           if negb (String.eqb okt "ok") then ok_verdict false false else
@@ -460,8 +467,8 @@ Definition check_kmvs (input output : J) : verdict :=
           let model :=
             if (k <=? 64)%nat then kmv_float (kmv_finish (kmv_build kltb keqb k ranks))
             else kmv_float (kmv_fast kltb keqb (Nat.max k 4) ranks) in
-          ok_verdict (fsame model est && fsames (map rank_of_u64 elems) ranks)
-                     (kmv_prop k elems ranks est)
+          ok_verdict (fsame model est && fsames (map rank_of_u64 elems) ranks && ranks_sane elems ranks)
+                     (kmv_prop k elems est plain)
       | _, _ => malformed
       end
   | _, _ => malformed
@@ -474,9 +481,9 @@ Definition dec_kest (j : J) : option (Z * float) :=
 
 Definition check_kmvk (input output : J) : verdict :=
   match input, output with
-  | JL [JI k; JL jkvs; JI _], JL [JS okt; JL [JL jres; jranks]] =>
-      match omap dec_ke jkvs, omap dec_kest jres, jfs jranks with
-      | Some kvs, Some res, Some ranks =>
+  | JL [JI k; JL jkvs; JI _], JL [JS okt; JL [JL jres; jranks; JL jplain]] =>
+      match omap dec_ke jkvs, omap dec_kest jres, jfs jranks, omap dec_kest jplain with
+      | Some kvs, Some res, Some ranks, Some plains =>
           if negb (String.eqb okt "ok") then ok_verdict false false else
           if negb (Nat.eqb (List.length kvs) (List.length ranks)) then malformed else
           let k := Z.to_nat k in
@@ -487,13 +494,16 @@ Definition check_kmvk (input output : J) : verdict :=
             (fsames (map (fun kv => rank_of_u64 (snd kv)) kvs) ranks
              && all2 (fun key r =>
                      (key =? fst r)
+                     && ranks_sane (map (fun x => snd (fst x)) (mine key)) (map snd (mine key))
                      && fsame (kmv_float (kmv_finish (kmv_build kltb keqb k (map snd (mine key)))))
                               (snd r)) keys res)
             (all2 (fun key r =>
                      (key =? fst r)
-                     && kmv_prop k (map (fun x => snd (fst x)) (mine key)) (map snd (mine key))
-                                 (snd r)) keys res)
-      | _, _, _ => malformed
+                     && match filter (fun p => fst p =? key) plains with
+                        | [p] => kmv_prop k (map (fun x => snd (fst x)) (mine key)) (snd r) (snd p)
+                        | _ => false
+                        end) keys res)
+      | _, _, _, _ => malformed
       end
   | _, _ => malformed
   end.
@@ -541,30 +551,25 @@ Definition dec_kcounts (j : J) : option (list (Z * Z)) :=
            so a key occurs in several records of one partition
      twin  per key: from_vec(the key's elems).approx_distinct_count(k)   (global twin of adck)
      dst   from_vec(elems).distinct() -- number of rows;  dstk: distinct_per_key() rows per key
+     plain / kplain  the real combiner on the SET of (the key's) elements: each distinct element
+           once, ascending, one accumulator, add_input only -- what every other entry must equal
      dir   the CombineFn / LiftableCombiner API by hand: one accumulator per segment (even:
            build_from_group, odd: create + add_input), merged in shape fan mod 3
    The model's ranks come from Combiners/KMVRank.v (SipHash-1-3), not from the harness.
    Model: kmv_fast (proved equal to every accumulator expression's finish: c15_kmv_fast_spec +
    c15_kmv_finish_spec + the SketchPipe theorems); for small cases also the runner-shaped model
    (SketchPipe.combine_globally / combine_values / combine_values_lifted over kmv_combiner). *)
-Definition band_ok (k' d : nat) (est : float) : bool :=
-  if (d <? k')%nat then feq est (fofnat d)
-  else if (64 <=? k')%nat then
-    let df := fofnat d in
-    fle (PrimFloat.abs (PrimFloat.sub est df))
-        (PrimFloat.mul df (PrimFloat.div 6%float (PrimFloat.sqrt (PrimFloat.sub (fofnat k') 2%float))))
-  else negb (fnan est).
-
 Definition same_kests (a b : list (Z * float)) : bool :=
   all2 (fun x y => (fst x =? fst y) && fsame (snd x) (snd y)) a b.
 
 Definition check_kh (input output : J) : verdict :=
   match input, output with
   | JL [JI k; JL jsegs; JI parts; JI fan],
-    JL [JS okt; JL [JF adc; JF cg; JF cgl; jadck; jcv; jgbkl; jcvl; jtwin; JI dst; jdstk; JF dir; jadck2]] =>
+    JL [JS okt; JL [JF adc; JF cg; JF cgl; jadck; jcv; jgbkl; jcvl; jtwin; JI dst; jdstk; JF dir; jadck2; JF plain; jkplain]] =>
       match omap dec_seg jsegs, dec_kests jadck, dec_kests jcv, dec_kests jgbkl, dec_kests jcvl,
-            dec_kests jtwin, dec_kcounts jdstk, dec_kests jadck2 with
-      | Some segs, Some adck, Some cv, Some gbkl, Some cvl, Some twin, Some dstk, Some adck2 =>
+            dec_kests jtwin, dec_kcounts jdstk, dec_kests jadck2, dec_kests jkplain with
+      | Some segs, Some adck, Some cv, Some gbkl, Some cvl, Some twin, Some dstk, Some adck2,
+        Some kplain =>
           if negb (String.eqb okt "ok") then ok_verdict false false else
           let groups := map seg_group segs in                       (* (key, elems) per segment *)
           (* a sketch size beyond the number of rows behaves like any other such size (fewer than
@@ -612,6 +617,7 @@ Definition check_kh (input output : J) : verdict :=
             else true in
           let agree :=
             fsame gmodel adc && fsame gmodel cg && fsame gmodel cgl && fsame gmodel dir
+            && fsame gmodel plain && same_kests gkmodel kplain
             && same_kests kmodel adck && same_kests kmodel adck2 && same_kests kmodel cv
             && same_kests kmodel gbkl
             && same_kests gkmodel cvl && same_kests gkmodel twin && pipe_agree in
@@ -623,13 +629,14 @@ Definition check_kh (input output : J) : verdict :=
             all2 (fun kd r => (fst kd =? fst r) && band_ok k' (snd kd) (snd r)) ds res in
           let prop :=
             band_ok k' d_all adc && fsame adc cg && fsame adc cgl && fsame adc dir
+            && fsame adc plain && same_kests twin kplain
             && per_key_ok d_keys adck && same_kests adck adck2 && same_kests adck cv
             && same_kests adck gbkl
             && per_key_ok d_gkeys cvl && same_kests cvl twin && same_kests adck (present cvl)
             && (dst =? Z.of_nat d_all)
             && all2 (fun kd r => (fst kd =? fst r) && (Z.of_nat (snd kd) =? snd r)) d_gkeys dstk in
           ok_verdict agree prop
-      | _, _, _, _, _, _, _, _ => malformed
+      | _, _, _, _, _, _, _, _, _ => malformed
       end
   | _, _ => malformed
   end.
